@@ -21,6 +21,7 @@ type totalCase struct {
 var totalWords = map[byte]string{
 	'w': "alpha", 'c': "beta,", 'o': "{", 'x': "}", 'i': "import", 'p': "(s)", 's': "s",
 	'f': "inc.conf", 'q': `""`, 'e': "{$VERIF_E}",
+	'z': "{$VERIF_UNSET_VARIABLE}", // the placeholder of a variable that is not set: expands to nothing
 }
 
 // layouts of insignificant white space: [same-line separator, line break]
